@@ -28,6 +28,11 @@ Section Body.
       | KVal _ _ _ =>
           let s := match prev with
                    | Some (KOut t st) => set_val s v (lookup (KOut t st) (s_vals s))
+                   | Some (KVal n2 t2 s2) =>
+                       match lookup (KVal n2 t2 s2) (s_vals s) with
+                       | Some x => set_val s v (Some x)
+                       | None => s
+                       end
                    | _ => s end in
           let cur := lookup v (s_vals s) in
           let s := set_last s cur in
@@ -503,7 +508,9 @@ Section Inv.
       + (* named value *)
         pose proof (VD eq_refl) as Dv.
         eapply Fin; [|exact Dv|exact Q]. apply Inv_set_last.
-        destruct prev as [[| | | |t0 st0]|]; try exact I. apply Inv_set_val; assumption.
+        destruct prev as [[| |n0 t0 st0| |t0 st0]|]; try exact I.
+        * destruct (lookup (KVal n0 t0 st0) (s_vals s)); [|exact I]. apply Inv_set_val; assumption.
+        * apply Inv_set_val; assumption.
       + (* typed argument *)
         pose proof (VD eq_refl) as Dv.
         eapply Fin; [|exact Dv|exact Q].
